@@ -159,6 +159,24 @@ def inferTreeEnsembleRegressor (nTargets : Option Nat) (x : ITy) : Res :=
   | some (_, [n, _]) => .ok [tensor .f32 [n, optDim nTargets]]
   | some _ => .err .inference
 
+/-! ### Non-tensor (Sequence / Optional) inputs
+
+Outside `Ty`: what each routine does when an input's type is not a Tensor. -/
+
+inductive NonTensorOutcome
+  | typeErr        -- `unwrap_tensor` raises TypeError
+  | inferenceErr   -- ONNX's own inference (called first) rejects the input
+  | passThrough    -- the routine returns the input's type unchanged (no eager check)
+  deriving DecidableEq, Repr
+
+def nonTensorOutcome : String → Option NonTensorOutcome
+  | "Binarizer" => some .passThrough
+  | "Normalizer" => some .passThrough
+  | "Compress" => some .inferenceErr
+  | "ArrayFeatureExtractor" | "CategoryMapper" | "Imputer" | "LinearRegressor" | "OneHotEncoder"
+  | "Scaler" | "TreeEnsembleClassifier" | "TreeEnsembleRegressor" => some .typeErr
+  | _ => none
+
 /-! ### ai.onnx: Compress -/
 
 /-- Python index normalisation for `shape[axis]` after the range check `-rank <= axis < rank`. -/
@@ -171,9 +189,9 @@ def condRankBad : Option (List Dim) → Bool
   | some cs => !(cs.length == 1 || cs.length == 0)
   | none => false
 
-/-- `_Compress.infer_output_types`. It first calls ONNX's own inference (which raises for an untyped
-    input — `unwrap_tensor` → TypeError —, a non-bool condition and an out-of-range axis) and discards
-    its result. -/
+/-- `_Compress.infer_output_types`. It first calls ONNX's own inference (which raises for a non-bool
+    condition, a rank-0 input and an out-of-range axis, and returns nothing when an input is untyped)
+    and discards its result; an untyped input then gives an untyped output. -/
 def inferCompress (axis : Option Int) (x c : ITy) : Res :=
   match x, c with
   | some xt, some ct =>
@@ -189,7 +207,7 @@ def inferCompress (axis : Option Int) (x c : ITy) : Res :=
             match normAxis a ds.length with
             | none => .err .inference
             | some i => .ok [tensor xt.e (ds.set i .anon)]
-  | _, _ => .err .typeErr
+  | _, _ => .ok [none]
 
 /-! ### ai.onnx: the Loop patch
 
